@@ -669,6 +669,9 @@ theorem valueNth_eq {α} (p : Pop) (k : Nat) (a : List α) (d : α) (hlen : a.le
   unfold valueNth valueNthWith
   rw [if_neg (by omega), membersPosition_eq _ hidne]
   simp only
+  unfold valueNthCore
+  rw [if_neg (by omega), if_neg (by simp [Pop.ids])]
+  simp only
   rw [bincount_eq _ _ hids, orderedMap_eq _ _ hids]
   have key := maskedAssign_opts (List.range p.n) (fun g => (valuesOf p none g a)[k]?) d
     (((List.range p.n).map (fun g => (p.ids.count g : Int))).map fun c => decide ((k : Int) < c))
@@ -1450,7 +1453,7 @@ end rank
 
 /-! ## projector chains -/
 
-theorem bubbleUp_append {α} (p : Pop) (z : α) (ps qs : List Proj) (x : List α) :
+theorem bubbleUp_append {α} (p : World) (z : α) (ps qs : List Proj) (x : List α) :
     bubbleUp p z (ps ++ qs) x
       = match bubbleUp p z ps x with
         | .error e => .error e
@@ -1471,22 +1474,26 @@ theorem valuesOf_ms_map {β} (p : Pop) (role : Option Role) (g : Nat) (F : Membe
     simpa using this
   simp [valuesOf, this, List.filter_map, Function.comp_def]
 
-theorem transform_toPerson {α} (p : Pop) (z : α) (x : List α) (hx : x.length = p.n)
-    (hg : ∀ m ∈ p.ms, m.group < p.n) :
-    transform p z .toPerson x = .ok (p.ms.map fun m => x.getD m.group z) := by
-  simp only [transform, project_eq p x z none hx hg, roleOk, if_true]
+theorem transform_toPerson {α} (w : World) (e : Nat) (p : Pop) (hp : w.pop e = p) (z : α) (x : List α)
+    (hx : x.length = p.n) (hg : ∀ m ∈ p.ms, m.group < p.n) :
+    transform w z (.toPerson e) x = .ok (p.ms.map fun m => x.getD m.group z) := by
+  subst hp
+  simp only [transform, project_eq (w.pop e) x z none hx hg, roleOk, if_true]
 
-theorem transform_firstPerson {α} (p : Pop) (z : α) (y : List α) (hy : y.length = p.ms.length)
-    (hne : p.ms ≠ []) (hg : ∀ m ∈ p.ms, m.group < p.n) :
-    transform p z .firstPerson y = .ok ((List.range p.n).map fun g => (valuesOf p none g y)[0]?.getD z) := by
-  simp only [transform, valueFromFirst, valueNth_eq p 0 y z hy hne hg]
+theorem transform_firstPerson {α} (w : World) (e : Nat) (p : Pop) (hp : w.pop e = p) (z : α) (y : List α)
+    (hy : y.length = p.ms.length) (hne : p.ms ≠ []) (hg : ∀ m ∈ p.ms, m.group < p.n) :
+    transform w z (.firstPerson e) y = .ok ((List.range p.n).map fun g => (valuesOf p none g y)[0]?.getD z) := by
+  subst hp
+  simp only [transform, valueFromFirst, valueNth_eq (w.pop e) 0 y z hy hne hg]
 
-theorem transform_uniqueRole {α} (p : Pop) (z : α) (r : Role) (y : List α) (hmax : r.max = some 1)
+theorem transform_uniqueRole {α} (w : World) (e : Nat) (p : Pop) (hp : w.pop e = p) (z : α) (r : Role)
+    (y : List α) (hmax : r.max = some 1)
     (hy : y.length = p.ms.length) (hg : ∀ m ∈ p.ms, m.group < p.n)
     (hu : ∀ g, g < p.n → (valuesOf p (some r) g y).length ≤ 1) :
-    transform p z (.uniqueRole r) y
+    transform w z (.uniqueRole e r) y
       = .ok ((List.range p.n).map fun g => (valuesOf p (some r) g y).head?.getD z) := by
-  simp only [transform, valueFromPerson_eq p y r z hmax hy hg hu]
+  subst hp
+  simp only [transform, valueFromPerson_eq (w.pop e) y r z hmax hy hg hu]
 
 /-- value read back on the group from one of its members after a broadcast: the group's own
 value when such a member exists, the default otherwise -/
@@ -1553,6 +1560,9 @@ theorem valueNthWith_eq {α} (p : Pop) (mp : List Nat) (hmp : SortsByGroup p.ids
     by_cases hidne : p.ids = []
     · rw [hidne]; rfl
     · rw [membersPosition_eq _ hidne]
+      simp only
+      unfold valueNthCore
+      rw [if_neg hlen, if_neg hlen, if_neg (by simp [Pop.ids]), if_neg (by simp [Pop.ids])]
       simp only
       have hv : ∀ mp : List Nat,
           maskSel ((takeD ((List.range p.ids.length).map (posOf p.ids)) mp 0).map (· == k)) (takeD a mp d)
@@ -1828,5 +1838,173 @@ end ties
 
 theorem argsortE_sortsRow (row : List EInt) : SortsRow row (argsortE row) :=
   ⟨argsortE_perm row, List.Pairwise.imp (fun {_ _} hab => hab.1) (argsortE_pairwise row)⟩
+
+/-! ## assigned member positions -/
+
+theorem membersOf_eq (p : Pop) (g : Nat) : membersOf p g = membersIdx p.ids g := by
+  unfold membersOf membersIdx
+  have hidl : p.ids.length = p.ms.length := by simp [Pop.ids]
+  rw [hidl]
+  apply List.filter_congr
+  intro i _
+  have : p.ids.getD i 0 = (p.ms.getD i default).group := getD_map' p.ms (·.group) i default
+  rw [this]
+
+theorem filter_eq_find? (M : List Nat) (q : Nat → Bool) (hnd : M.Nodup)
+    (h : ∀ x ∈ M, ∀ y ∈ M, q x = true → q y = true → x = y) : M.filter q = (M.find? q).toList := by
+  induction M with
+  | nil => rfl
+  | cons x xs ih =>
+    rw [List.nodup_cons] at hnd
+    by_cases hq : q x = true
+    · have hnil : xs.filter q = [] := by
+        rw [List.filter_eq_nil_iff]
+        intro y hy hqy
+        have := h x (by simp) y (by simp [hy]) hq hqy
+        exact hnd.1 (this ▸ hy)
+      simp [hq, hnil]
+    · have hq' : q x = false := by simpa using hq
+      rw [List.filter_cons, if_neg hq, List.find?_cons, hq']
+      exact ih hnd.2 (fun a ha b hb => h a (by simp [ha]) b (by simp [hb]))
+
+theorem nodup_map_inj (M : List Nat) (f : Nat → Nat) (h : (M.map f).Nodup) (x y : Nat) (hx : x ∈ M)
+    (hy : y ∈ M) (hf : f x = f y) : x = y := by
+  induction M with
+  | nil => simp at hx
+  | cons a l ih =>
+    rw [List.map_cons, List.nodup_cons] at h
+    rcases List.mem_cons.mp hx with rfl | hx' <;> rcases List.mem_cons.mp hy with rfl | hy'
+    · rfl
+    · exact absurd (List.mem_map.mpr ⟨y, hy', hf.symm⟩) h.1
+    · exact absurd (List.mem_map.mpr ⟨x, hx', hf⟩) h.1
+    · exact ih h.2 hx' hy'
+
+theorem valueNthCore_assigned {α} (p : Pop) (pos mp : List Nat) (hv : ValidPositions p pos)
+    (hmp : SortsByGroup p.ids mp) (k : Nat) (a : List α) (d : α) (hlen : a.length = p.ms.length)
+    (hg : ∀ m ∈ p.ms, m.group < p.n) :
+    valueNthCore p pos mp k a d = .ok ((List.range p.n).map fun g =>
+      (((membersOf p g).find? fun i => pos.getD i 0 == k).map fun i => a.getD i d).getD d) := by
+  have hids := ids_lt_of_ms p hg
+  have hidl : p.ids.length = p.ms.length := by simp [Pop.ids]
+  have hperm : ∀ g, ((membersIdx p.ids g).map fun i => pos.getD i 0).Perm
+      (List.range (membersIdx p.ids g).length) := by
+    intro g; have := hv.2 g; rwa [membersOf_eq] at this
+  have hndM : ∀ g, (membersIdx p.ids g).Nodup := fun g =>
+    List.Pairwise.imp (fun {a b} h => Nat.ne_of_lt h) (membersIdx_pairwise_lt _ _)
+  have hinj : ∀ g, ∀ x ∈ membersIdx p.ids g, ∀ y ∈ membersIdx p.ids g,
+      pos.getD x 0 = pos.getD y 0 → x = y := by
+    intro g x hx y hy hxy
+    exact nodup_map_inj _ (fun i => pos.getD i 0) ((hperm g).nodup_iff.mpr List.nodup_range) x y hx hy hxy
+  unfold valueNthCore
+  rw [if_neg (by omega), if_neg (by have := hv.1; omega)]
+  simp only
+  rw [bincount_eq _ _ hids]
+  have hvals : ∀ mp : List Nat,
+      maskSel ((takeD pos mp 0).map (· == k)) (takeD a mp d)
+      = (mp.filter (fun i => pos.getD i 0 == k)).map (fun i => a.getD i d) := by
+    intro mp
+    simp only [takeD, List.map_map]
+    rw [maskSel_map]
+    rfl
+  rw [hvals mp, filter_sorted_unique p.ids mp (orderedMap p.ids) hmp (orderedMap_sorts p.ids) _ (by
+    intro i j hi hj hpi hpj hgrp
+    exact hinj (p.ids.getD j 0) i ((mem_membersIdx _ _ _).mpr ⟨hi, hgrp⟩) j
+      ((mem_membersIdx _ _ _).mpr ⟨hj, rfl⟩) ((beq_iff_eq.mp hpi).trans (beq_iff_eq.mp hpj).symm)),
+    orderedMap_eq _ _ hids]
+  have key := maskedAssign_opts (List.range p.n)
+    (fun g => ((membersOf p g).find? fun i => pos.getD i 0 == k).map fun i => a.getD i d) d
+    (((List.range p.n).map (fun g => (p.ids.count g : Int))).map fun c => decide ((k : Int) < c))
+    ((((List.range p.n).flatMap (membersIdx p.ids)).filter (fun i => pos.getD i 0 == k)).map
+      (fun i => a.getD i d))
+    (by
+      rw [List.map_map]
+      apply List.map_congr_left
+      intro g _
+      simp only [Function.comp, Option.isSome_map, Int.ofNat_lt, membersOf_eq]
+      rw [← membersIdx_length]
+      by_cases hk : k < (membersIdx p.ids g).length
+      · have hmem : k ∈ (membersIdx p.ids g).map fun i => pos.getD i 0 :=
+          (hperm g).mem_iff.mpr (List.mem_range.mpr hk)
+        obtain ⟨i, hi, hik⟩ := List.mem_map.mp hmem
+        have : ((membersIdx p.ids g).find? fun i => pos.getD i 0 == k).isSome = true := by
+          rw [List.find?_isSome]
+          exact ⟨i, hi, beq_iff_eq.mpr hik⟩
+        rw [this]; exact decide_eq_true hk
+      · have : ((membersIdx p.ids g).find? fun i => pos.getD i 0 == k) = none := by
+          rw [List.find?_eq_none]
+          intro i hi hik
+          have hmem : k ∈ (membersIdx p.ids g).map fun i => pos.getD i 0 :=
+            List.mem_map.mpr ⟨i, hi, beq_iff_eq.mp hik⟩
+          exact hk (List.mem_range.mp ((hperm g).mem_iff.mp hmem))
+        rw [this]; exact decide_eq_false hk)
+    (by
+      rw [List.filter_flatMap, List.map_flatMap]
+      apply flatMap_congr'
+      intro g _
+      rw [membersOf_eq, filter_eq_find? _ _ (hndM g) (by
+        intro x hx y hy hqx hqy
+        exact hinj g x hx y hy ((beq_iff_eq.mp hqx).trans (beq_iff_eq.mp hqy).symm))]
+      cases (membersIdx p.ids g).find? fun i => pos.getD i 0 == k <;> rfl)
+  rw [List.length_range] at key
+  exact key
+
+/-- the positions computed by the counter loop are valid -/
+theorem computed_positions_valid (p : Pop) :
+    ValidPositions p ((List.range p.ids.length).map (posOf p.ids)) := by
+  have hidl : p.ids.length = p.ms.length := by simp [Pop.ids]
+  refine ⟨by simp [hidl], fun g => ?_⟩
+  rw [membersOf_eq]
+  have h1 : ((membersIdx p.ids g).map fun i => ((List.range p.ids.length).map (posOf p.ids)).getD i 0)
+      = (membersIdx p.ids g).map (posOf p.ids) := by
+    apply List.map_congr_left
+    intro i hi
+    have := (membersIdx_lt _ _ _ hi).1
+    rw [List.getD_eq_getElem?_getD, List.getElem?_map, List.getElem?_range this]; rfl
+  rw [h1, membersIdx_map_posOf, membersIdx_length]
+
+/-! ## `value_from_partner` -/
+
+theorem select2_map {α} (ms : List Member) (c1 c2 : Member → Bool) (f1 f2 : Member → α) (zero : α) :
+    select2 ms c1 c2 (ms.map f1) (ms.map f2) zero
+      = ms.map fun m => if c1 m then f1 m else if c2 m then f2 m else zero := by
+  unfold select2
+  rw [List.zip_map']
+  have : ms.zip (ms.map fun m => (f1 m, f2 m)) = ms.map fun m => (m, f1 m, f2 m) := by
+    have := List.zip_map' (f := id) (g := fun m => (f1 m, f2 m)) (l := ms)
+    simpa using this
+  rw [this, List.map_map]
+  rfl
+
+theorem getD_range_map {β} (n g : Nat) (F : Nat → β) (z : β) (hg : g < n) :
+    ((List.range n).map F).getD g z = F g := by
+  rw [List.getD_eq_getElem?_getD, List.getElem?_map, List.getElem?_range hg]; rfl
+
+theorem valueFromPartner_eq {α} (p : Pop) (a : List α) (role : Role) (zero : α) (s1 s2 : Nat)
+    (hsubs : role.subs = [s1, s2]) (hlen : a.length = p.ms.length)
+    (hg : ∀ m ∈ p.ms, m.group < p.n)
+    (hu1 : ∀ g, g < p.n → (valuesOf p (some ⟨s1, [], some 1⟩) g a).length ≤ 1)
+    (hu2 : ∀ g, g < p.n → (valuesOf p (some ⟨s2, [], some 1⟩) g a).length ≤ 1) :
+    valueFromPartner p a role zero = .ok (p.ms.map fun m =>
+      if (⟨s1, [], some 1⟩ : Role).holds m then
+        (valuesOf p (some ⟨s2, [], some 1⟩) m.group a).head?.getD zero
+      else if (⟨s2, [], some 1⟩ : Role).holds m then
+        (valuesOf p (some ⟨s1, [], some 1⟩) m.group a).head?.getD zero
+      else zero) := by
+  unfold valueFromPartner
+  rw [if_neg (by omega), hsubs]
+  simp only
+  rw [valueFromPerson_eq p a ⟨s1, [], some 1⟩ zero rfl hlen hg hu1]
+  simp only
+  rw [project_eq p _ zero none (by simp) hg]
+  simp only
+  rw [valueFromPerson_eq p a ⟨s2, [], some 1⟩ zero rfl hlen hg hu2]
+  simp only
+  rw [project_eq p _ zero none (by simp) hg]
+  simp only [roleOk, if_true]
+  rw [select2_map]
+  congr 1
+  apply List.map_congr_left
+  intro m hm
+  rw [getD_range_map _ _ _ _ (hg m hm), getD_range_map _ _ _ _ (hg m hm)]
 
 end OFCore.Grp
